@@ -47,13 +47,19 @@ def all_entities_doc():
     return "".join("&%s;x" % n for n in sorted(ents.entitydefs)) + "&#1;&#x1;&#1114111;&#x10ffff;&#x10FFFF;&#55296;&#xDFFF;&#0;&#1114112;&#x110000;&#00065;"
 
 
+def long_entities_doc():
+    """numeric entities beyond int()'s 4300-digit limit"""
+    return "&#" + "0" * 4400 + "65;&#x" + "0" * 4400 + "41;&#" + "9" * 4400 + ";&#" + "0" * 4299 + "66;"
+
+
 def parse_case(seed):
     st = tokharness.setup()
     rng = random.Random(seed)
-    text = all_entities_doc() if seed % 5000 == 0 else gen_text(rng)
+    text = all_entities_doc() if seed % 5000 == 0 else (long_entities_doc() if seed % 5000 == 1 else gen_text(rng))
     text = text.replace("\ud800", "").replace("\udfff", "")
     which = "c" if (st["c"] is not None and rng.random() < 0.3) else "py"
     toks = st[which]().tokenize(text, 0, rng.random() < 0.2)
-    enc = buildcorr.encode_tokens(toks)
+    # the extracted model is quadratic in the length of one text run: the 4400-digit entities are oracle-only
+    enc = None if seed % 5000 == 1 else buildcorr.encode_tokens(toks)
     code = st["builder"]().build(toks)
     return text, enc, code
